@@ -1,6 +1,7 @@
 (* sx glue for Model/World.v: decode ops and queries, run a history, one reply per item. *)
 From Coq Require Import ZArith List Bool.
 From V Require Import Result LazyTree World Aggregates.
+From V Require IndexCheck.
 Import ListNotations.
 Open Scope Z_scope.
 
@@ -156,7 +157,7 @@ Definition run_item (w : world) (it : sx) : world * sx :=
     else (w, L [A 0])
   | _ =>
     match op_of_sx it with
-    | Some o => match step w o with Ok w' => (w', L [A 0]) | Err e => (w, sx_err e) end
+    | Some o => match IndexCheck.step_checked w o with Ok w' => (w', L [A 0]) | Err e => (w, sx_err e) end
     | None => (w, L [A (-2)])
     end
   end.
